@@ -26,6 +26,7 @@ import (
 	"go.uber.org/zap"
 
 	"github.com/mimiro-io/datahub/internal/conf"
+	"github.com/mimiro-io/datahub/internal/verifhook"
 )
 
 const datasetCore = "core.Dataset"
@@ -128,6 +129,7 @@ func (dsm *DsManager) CreateDataset(name string, createDatasetConfig *CreateData
 	if err != nil {
 		return nil, err
 	}
+	verifhook.Point("dsm.create.idpersisted", name)
 	if createDatasetConfig != nil {
 		ds.ProxyConfig = createDatasetConfig.ProxyDatasetConfig
 		ds.PublicNamespaces = createDatasetConfig.PublicNamespaces
@@ -140,6 +142,7 @@ func (dsm *DsManager) CreateDataset(name string, createDatasetConfig *CreateData
 		return nil, err
 	}
 
+	verifhook.Point("dsm.create.recordstored", name)
 	dsm.store.datasets.Store(name, ds)
 	dsm.store.datasetsByInternalID.Store(ds.InternalID, ds)
 
@@ -156,6 +159,7 @@ func (dsm *DsManager) CreateDataset(name string, createDatasetConfig *CreateData
 		return ds, err
 	}
 
+	verifhook.Point("dsm.create.metastored", name)
 	// making sure the event is triggered
 	dsm.eb.Emit(context.Background(), "dataset.core.Dataset", nil)
 
@@ -197,6 +201,7 @@ func (dsm *DsManager) UpdateDataset(name string, config *UpdateDatasetConfig) (*
 			return nil, err
 		}
 
+		verifhook.Point("dsm.rename.moved", name)
 		// update in local cache
 		dsm.store.datasets.Delete(name)
 		dsm.store.datasets.Store(newName, ds)
@@ -223,6 +228,7 @@ func (dsm *DsManager) UpdateDataset(name string, config *UpdateDatasetConfig) (*
 		if err != nil {
 			return nil, err
 		}
+		verifhook.Point("dsm.rename.tombstoned", name)
 		entity.IsDeleted = false
 		entity.ID = dsInfo.DatasetPrefix + ":" + newName
 		entity.Properties[dsInfo.NameKey] = newName
@@ -230,6 +236,7 @@ func (dsm *DsManager) UpdateDataset(name string, config *UpdateDatasetConfig) (*
 		if err != nil {
 			return nil, err
 		}
+		verifhook.Point("dsm.rename.metastored", name)
 		dsm.eb.Emit(context.Background(), "dataset.core.Dataset", nil)
 	}
 	return ds, nil
@@ -261,6 +268,7 @@ func (dsm *DsManager) DeleteDataset(name string) error {
 		return err
 	}
 
+	verifhook.Point("dsm.delete.recorddeleted", name)
 	// record we deleted it.
 	// swap map out with new modified copy of map to avoid concurrent read/write issues which can occur if
 	// a user deletes a dataset while this map is iterated over (in garbagecollector for example)
@@ -270,10 +278,12 @@ func (dsm *DsManager) DeleteDataset(name string) error {
 	}
 	newDeletedDatasets[existingDataset.InternalID] = true
 	dsm.store.deletedDatasets = newDeletedDatasets
+	verifhook.Point("dsm.delete.setswapped", name)
 	err = dsm.store.StoreObject(StoreMetaIndex, "deleteddatasets", dsm.store.deletedDatasets)
 	if err != nil {
 		return err
 	}
+	verifhook.Point("dsm.delete.setpersisted", name)
 
 	dsm.eb.UnregisterTopic(name) // unregister event-handler on this topic. Note that subscriptions are left.
 
@@ -288,6 +298,7 @@ func (dsm *DsManager) DeleteDataset(name string) error {
 	if err != nil {
 		return err
 	}
+	verifhook.Point("dsm.delete.metadeleted", name)
 	dsm.eb.Emit(context.Background(), "dataset.core.Dataset", nil)
 
 	// fixme: schedule background job for cleaning up
